@@ -351,6 +351,8 @@ pub struct Sim {
     /// Sparse direct-descriptor table: `None` = not registered.
     pub files: Option<Vec<i32>>,
     pub default_cancelable: bool,
+    /// Per target descriptor (sqe.fd) override of `default_cancelable`.
+    pub cancel_policy: Vec<(i32, bool)>,
     pub cfg: SetupConfig,
     pub mmaps_seen: usize,
     pub madvises_seen: usize,
@@ -519,6 +521,19 @@ impl Sim {
     /// Number of SQEs published and not yet consumed.
     pub fn sq_pending(&self) -> u32 {
         self.sq_tail().wrapping_sub(self.sq_head())
+    }
+
+    /// Submissions published by the implementation and not yet consumed, oldest first.
+    pub fn pending_sqes(&self) -> Vec<Sqe> {
+        let mut out = Vec::new();
+        let mut h = self.sq_head();
+        let t = self.sq_tail();
+        while h != t && out.len() < self.sq_entries as usize {
+            let idx = (h & (self.sq_entries - 1)) as usize;
+            out.push(unsafe { self.sqes.add(idx).read_volatile() });
+            h = h.wrapping_add(1);
+        }
+        out
     }
 
     /// Sanity of what the implementation published (K3: the kernel owns [tail, head+len)).
@@ -694,7 +709,8 @@ impl Sim {
                 let req = self.next_req;
                 self.next_req += 1;
                 self.log.push(Ev::Consumed { sqe, req: Some(req) });
-                self.inflight.push(Inflight { req, sqe, posted: 0, cancelable: self.default_cancelable });
+                let cancelable = self.cancel_policy.iter().find(|p| p.0 == sqe.fd).map_or(self.default_cancelable, |p| p.1);
+                self.inflight.push(Inflight { req, sqe, posted: 0, cancelable });
                 if let Some((res, flags)) = self.cfg.auto_complete {
                     self.complete(req, res, flags);
                 }
@@ -834,6 +850,7 @@ unsafe fn hook_setup(entries: c_uint, p: *mut c_void) -> Option<c_int> {
         pbufs: BTreeMap::new(),
         files: None,
         default_cancelable: true,
+        cancel_policy: Vec::new(),
         cfg: cfg.clone(),
         mmaps_seen: 0,
         madvises_seen: 0,
